@@ -162,6 +162,42 @@ func buildCorpus(tier string, seed uint64) {
 	for i := 0; i < nRaw; i++ {
 		corpus = append(corpus, &corpusFile{name: simgen.GoFontNames[i] + ".ttf(original bytes)", file: simgen.GoFontData(i)})
 	}
+	// a font as foundries ship it: the physically last table is one the
+	// library does not interpret (a digital signature)
+	{
+		src := simgen.GoFontData(0)
+		dir, err := simgen.ParseDirectory(src)
+		if err != nil {
+			panic(err)
+		}
+		tables := map[string][]byte{}
+		for _, e := range dir.Entries {
+			tables[e.Tag] = src[e.Offset : e.Offset+e.Length]
+		}
+		sig := make([]byte, 1500)
+		for i := range sig {
+			sig[i] = byte(i*7 + 1)
+		}
+		tables["DSIG"] = sig
+		w := simio.NewWriter()
+		if _, err := header.Write(w, dir.Scaler, tables); err != nil {
+			panic(err)
+		}
+		d2, err := simgen.ParseDirectory(w.Disk)
+		if err != nil {
+			panic(err)
+		}
+		last := d2.Entries[0]
+		for _, e := range d2.Entries {
+			if e.Offset > last.Offset {
+				last = e
+			}
+		}
+		if last.Tag != "DSIG" {
+			panic("worker: the uninterpreted table is not the last one: " + last.Tag)
+		}
+		corpus = append(corpus, &corpusFile{name: "goregular+signature(uninterpreted last table)", file: w.Disk})
+	}
 	for _, cf := range corpus {
 		cf.ref = make([][]byte, len(writeOps))
 		cf.calls = make([][]simio.WriteCall, len(writeOps))
